@@ -114,6 +114,10 @@ type Reply struct {
 	// StallAfter > 0: the backend pauses for StallFor after that many rows.
 	StallAfter int
 	StallFor   time.Duration
+	// Next: a further result of the same statement (CALL of a procedure with several selects): every result but
+	// the last carries SERVER_MORE_RESULTS_EXISTS. StallNext: the backend pauses that long before it sends Next.
+	Next      *Reply
+	StallNext time.Duration
 }
 
 type FaultAction struct {
@@ -585,12 +589,31 @@ func (c *Conn) execSet(st *Stmt) *Reply {
 }
 
 func (c *Conn) reply(st *Stmt, rep *Reply) bool {
+	for ; rep != nil; rep = rep.Next {
+		if !c.replyOne(st, rep) {
+			return false
+		}
+		if rep.Err != nil {
+			return true // an error ends the chain
+		}
+		if rep.Next != nil && rep.StallNext > 0 {
+			verifhook.Sleep(rep.StallNext)
+		}
+	}
+	return true
+}
+
+func (c *Conn) replyOne(st *Stmt, rep *Reply) bool {
 	pc := c.pc
+	status := c.status()
+	if rep.Next != nil {
+		status |= myproto.SMoreResults
+	}
 	switch {
 	case rep.Err != nil:
 		return pc.WritePacket(myproto.ERR(rep.Err.Code, rep.Err.State, rep.Err.Msg)) == nil
 	case rep.Columns == nil:
-		return pc.WritePacket(myproto.OK(rep.Affected, rep.InsertID, c.status(), 0, rep.Info)) == nil
+		return pc.WritePacket(myproto.OK(rep.Affected, rep.InsertID, status, 0, rep.Info)) == nil
 	}
 	if st.Cmd != "fieldlist" {
 		if pc.WritePacket(myproto.AppendLenInt(nil, uint64(len(rep.Columns)))) != nil {
@@ -602,7 +625,7 @@ func (c *Conn) reply(st *Stmt, rep *Reply) bool {
 			return false
 		}
 	}
-	if pc.WritePacket(myproto.EOF(c.status(), 0)) != nil {
+	if pc.WritePacket(myproto.EOF(status, 0)) != nil {
 		return false
 	}
 	if st.Cmd == "fieldlist" {
@@ -642,7 +665,7 @@ func (c *Conn) reply(st *Stmt, rep *Reply) bool {
 			}
 		}
 	}
-	return pc.WritePacket(myproto.EOF(c.status(), 0)) == nil
+	return pc.WritePacket(myproto.EOF(status, 0)) == nil
 }
 
 // OpenTransactions lists backend connections that are alive and inside a transaction or with autocommit off.
